@@ -90,6 +90,11 @@ def worldOp (st : DState) (fields : List String) : DState × Outcome :=
     match id.toNat? with
     | some id => let (w, o) := World.deliver C st.world id .fail; ({ st with world := w }, o)
     | none => (st, .fail)
+  | ["deliver", id, "fail", _code] =>
+    -- the VM return code of the failing callee: a failure is a failure, whatever the code
+    match id.toNat? with
+    | some id => let (w, o) := World.deliver C st.world id .fail; ({ st with world := w }, o)
+    | none => (st, .fail)
   | ["deliver", id, "ok", vals] =>
     match id.toNat?, parseArgs vals with
     | some id, some vals => let (w, o) := World.deliver C st.world id (.ok vals); ({ st with world := w }, o)
